@@ -266,7 +266,10 @@ def run_stream(ctx: Ctx, cfg: dict) -> dict:
 
         async def sender(i: int) -> None:
             try:
-                await tr.send_all(payloads[i])
+                if cfg.get("api", "send_all") == "send_all":
+                    await tr.send_all(payloads[i])
+                else:  # what every endpoint / client send_packet() uses
+                    await tr.send_all_from_iterable(iter([payloads[i][:1], b"", payloads[i][1:]]))
                 out["results"][i] = "ok"
             except OSError as exc:
                 out["results"][i] = "oserror"
@@ -345,14 +348,15 @@ def stream_jobs(tier: str) -> list[dict]:
     for sizes in SIZE_SETS:
         for cap in (1, 3, 10):
             for peer in PEERS:
-                out.append({"part": "stream", "sizes": list(sizes), "cap": cap, "peer": peer, "tier": tier})
+                for api in ("send_all", "iter"):
+                    out.append({"part": "stream", "sizes": list(sizes), "cap": cap, "peer": peer, "api": api, "tier": tier})
     return out
 
 
 def run_stream_job(job: dict, res: JobResult) -> None:
     bound = 3 if job["tier"] == "quick" else 4
     for cancel in [None] + list(range(len(job["sizes"]))):
-        cfg = {"sizes": job["sizes"], "cap": job["cap"], "peer": job["peer"], "cancel": cancel}
+        cfg = {"sizes": job["sizes"], "cap": job["cap"], "peer": job["peer"], "api": job.get("api", "send_all"), "cancel": cancel}
         found: dict[str, tuple[Ctx, dict]] = {}
         obs_states: set = set()
 
@@ -363,7 +367,7 @@ def run_stream_job(job: dict, res: JobResult) -> None:
             key = (tuple(obs["results"]), tuple(obs["pending_at_end"]) if "pending_at_end" in obs else None, len(obs["wire"]))
             obs_states.add(key)
             if any(obs["suspended"]):
-                res.nontrivial.add(digest(("stream", tuple(cfg["sizes"]), cfg["cap"], cfg["peer"], cancel, key)))
+                res.nontrivial.add(digest(("stream", cfg["api"], tuple(cfg["sizes"]), cfg["cap"], cfg["peer"], cancel, key)))
             if bad is not None and (bad not in found or len(ctx.choices) < len(found[bad][0].choices)):
                 found[bad] = (ctx, obs)
 
@@ -374,8 +378,8 @@ def run_stream_job(job: dict, res: JobResult) -> None:
             res.caps.append("stream max_runs")
         for bad, (ctx, obs) in found.items():
             res.violations.append(Violation(
-                f"stream/{bad}",
-                f"stream adapter senders={cfg['sizes']} capacity={cfg['cap']} peer={cfg['peer']} cancel={cancel}: results={obs['results']} "
+                f"stream/{cfg['api']}/{bad}",
+                f"stream adapter ({cfg['api']}) senders={cfg['sizes']} capacity={cfg['cap']} peer={cfg['peer']} cancel={cancel}: results={obs['results']} "
                 f"wire_at_return={obs['wire_at_return']} pending={obs.get('pending_at_end')} schedule={obs['trace']} choices={ctx.choices}",
                 {"part": "stream", "cfg": cfg, "choices": list(ctx.choices)},
             ))
